@@ -13,6 +13,7 @@
 -/
 import Cachelito.Generated.PureKeys
 import Cachelito.Keys
+import Cachelito.Props.C02
 
 set_option linter.unusedSimpArgs false
 set_option linter.unusedVariables false
@@ -89,6 +90,45 @@ theorem keyAsync_1_3_eq (s a0 a1 a2 : Text) : keyAsync_1_3 s a0 a1 a2 = keyOfPar
 theorem keyAsync_1_4_eq (s a0 a1 a2 a3 : Text) : keyAsync_1_4 s a0 a1 a2 a3 = keyOfParts (some s) [a0, a1, a2, a3] := by
   simp [keyAsync_1_4, keyOfParts, pushBack, joinWith, joinTail]
 
+
+/-! ## C02 on the generated key expressions: distinct argument tuples never share a key -/
+
+/-- a method with two arguments under `#[cache]`: if two calls get the same GENERATED key, receiver and arguments are equal
+    (for every signature the values inhabit; `FloatOK`: the float printer is injective on the values that occur) -/
+theorem keySync_1_2_injective {F : Type} (fm : Fmt F) (hf : FloatOK fm.float) (sig : Sig)
+    (r r' a0 a0' a1 a1' : Val F) (ha : sig.wt (some r) [a0, a1] = true) (hb : sig.wt (some r') [a0', a1'] = true)
+    (h : keySync_1_2 (render fm r) (render fm a0) (render fm a1) = keySync_1_2 (render fm r') (render fm a0') (render fm a1')) :
+    r = r' ∧ a0 = a0' ∧ a1 = a1' := by
+  rw [keySync_1_2_eq, keySync_1_2_eq] at h
+  have h' : keyOf fm (some r) [a0, a1] = keyOf fm (some r') [a0', a1'] := by
+    rw [keyOf_eq_keyOfParts, keyOf_eq_keyOfParts]; simpa using h
+  obtain ⟨h1, h2⟩ := C02.key_injective fm hf sig (some r) (some r') [a0, a1] [a0', a1'] ha hb h'
+  simp at h1 h2
+  exact ⟨h1, h2.1, h2.2⟩
+
+/-- a method with ONE argument (the arity a "single-argument fast path" would special-case): the receiver is part of the key -/
+theorem keySync_1_1_injective {F : Type} (fm : Fmt F) (hf : FloatOK fm.float) (sig : Sig)
+    (r r' a0 a0' : Val F) (ha : sig.wt (some r) [a0] = true) (hb : sig.wt (some r') [a0'] = true)
+    (h : keySync_1_1 (render fm r) (render fm a0) = keySync_1_1 (render fm r') (render fm a0')) :
+    r = r' ∧ a0 = a0' := by
+  rw [keySync_1_1_eq, keySync_1_1_eq] at h
+  have h' : keyOf fm (some r) [a0] = keyOf fm (some r') [a0'] := by
+    rw [keyOf_eq_keyOfParts, keyOf_eq_keyOfParts]; simpa using h
+  obtain ⟨h1, h2⟩ := C02.key_injective fm hf sig (some r) (some r') [a0] [a0'] ha hb h'
+  simp at h1 h2
+  exact ⟨h1, h2⟩
+
+/-- an async free function with three arguments -/
+theorem keyAsync_0_3_injective {F : Type} (fm : Fmt F) (hf : FloatOK fm.float) (sig : Sig)
+    (a0 a0' a1 a1' a2 a2' : Val F) (ha : sig.wt none [a0, a1, a2] = true) (hb : sig.wt none [a0', a1', a2'] = true)
+    (h : keyAsync_0_3 [] (render fm a0) (render fm a1) (render fm a2) = keyAsync_0_3 [] (render fm a0') (render fm a1') (render fm a2')) :
+    a0 = a0' ∧ a1 = a1' ∧ a2 = a2' := by
+  rw [keyAsync_0_3_eq, keyAsync_0_3_eq] at h
+  have h' : keyOf fm none [a0, a1, a2] = keyOf fm none [a0', a1', a2'] := by
+    rw [keyOf_eq_keyOfParts, keyOf_eq_keyOfParts]; simpa using h
+  obtain ⟨_, h2⟩ := C02.key_injective fm hf sig none none [a0, a1, a2] [a0', a1', a2'] ha hb h'
+  simp at h2
+  exact h2
 
 /-- non-vacuity / what the separator is for: a method `m(&self, x)` and the same method on another receiver get different
     keys as soon as the receivers render differently -/
